@@ -359,6 +359,57 @@ Theorem C10_client_count_inherited : forall cops rops n post,
 Proof. exact client_count_inherited. Qed.
 Print Assumptions C10_client_count_inherited.
 
+(* ---------- the same Request object executed again; round-trip wrappers ---------- *)
+
+(* Request.do restarts the attempt counter itself (gosync: do() begins with
+   unmergeClientSettings, which sets RetryAttempt = 0 unconditionally), so every execution -
+   through Send-based verbs or through Do - is bounded, condition-driven and numbers its retries
+   from 1, whatever counter the previous execution left *)
+Theorem C10_do_resets_attempt : do_resets_attempt = true.
+Proof. exact do_resets. Qed.
+Print Assumptions C10_do_resets_attempt.
+
+Theorem C10_reexecution_bounded : forall detect c o s ins,
+  hooks_keep_attempt (ro_hooks o) -> (0 <= ro_max o)%Z ->
+  (Z.of_nat (length (res_wires (run_exec detect c true (Some o) s ins))) <= ro_max o + 1)%Z.
+Proof. exact reexecution_bounded. Qed.
+Print Assumptions C10_reexecution_bounded.
+
+Theorem C10_reexecution_exact : forall detect c o s ins j a,
+  hooks_keep_attempt (ro_hooks o) -> refused (Some o) (set_attempt s 0) = false ->
+  nth_error ins j = Some a -> (S j < length ins)%nat ->
+  let n := length (res_wires (run_exec detect c true (Some o) s ins)) in
+  (j < n)%nat -> ((S j < n)%nat <-> continues o (Z.of_nat j) a = true).
+Proof. exact reexecution_exact. Qed.
+Print Assumptions C10_reexecution_exact.
+
+Theorem C10_reexecution_hooks_from_one : forall detect c o s ins,
+  hooks_keep_attempt (ro_hooks o) -> refused (Some o) (set_attempt s 0) = false ->
+  let r := run_exec detect c true (Some o) s ins in
+  res_end r = EndNormal ->
+  res_hooks r =
+    flat_map (fun j => map (fun h => mkCall (hk_id h) (Z.of_nat (S j)) (view_of (a_out (nth j ins dflt_ain))))
+                           (rev (ro_hooks o)))
+             (seq 0 (pred (length (res_wires r)))).
+Proof. exact reexecution_hooks_from_one. Qed.
+Print Assumptions C10_reexecution_hooks_from_one.
+
+Theorem C10_stale_counter_refuted :
+  length (res_wires (run_exec (fun _ => []) ex_client false (Some ex_ropt2) ex_stale ex_script3)) = 1%nat /\
+  length (res_wires (run_exec (fun _ => []) ex_client true (Some ex_ropt2) ex_stale ex_script3)) = 3%nat.
+Proof. exact stale_counter_refuted. Qed.
+Print Assumptions C10_stale_counter_refuted.
+
+(* a round-trip wrapper that hands back the response and an error the response does not record:
+   the error is the attempt's error (retried by the default rule, returned when last).  A wrapper
+   answering (nil, err) is a plain failed attempt (OErr): do() makes a fresh placeholder response
+   for THAT attempt, so the result is never an earlier attempt's response *)
+Theorem C10_wrapper_error_is_the_attempts_error : forall s e,
+  fst (need_retry [] (view_of (OStatusErr s e))) = true /\
+  final_view (mkAin (OStatusErr s e) []) = mkView (Some s) (Some e).
+Proof. exact wrapper_error_is_the_attempts_error. Qed.
+Print Assumptions C10_wrapper_error_is_the_attempts_error.
+
 (* ---------- several requests of one client ---------- *)
 
 (* the storage of conditions / hooks (Model/RetrySlices.v: backing arrays, len, cap; append in
